@@ -23,12 +23,16 @@ func newReaderBackedChunkReader(r io.ReadCloser, maximumChunkSizeBytes int) Chun
 
 func (r *readerBackedChunkReader) Read() ([]byte, error) {
 	if r.err == nil {
+		// Don't use io.ReadFull() here. It reports a short read
+		// as io.ErrUnexpectedEOF, making it indistinguishable
+		// from an underlying reader failing with that error
+		// (e.g., a truncated compressed stream).
 		b := make([]byte, r.maximumChunkSizeBytes)
-		n, err := io.ReadFull(r.r, b[:])
-		if err == io.ErrUnexpectedEOF {
-			r.err = io.EOF
-		} else {
-			r.err = err
+		n := 0
+		for n < len(b) && r.err == nil {
+			var nRead int
+			nRead, r.err = r.r.Read(b[n:])
+			n += nRead
 		}
 		if n > 0 {
 			return b[:n], nil
